@@ -12,8 +12,8 @@ EXTENDS AbsSeq, Generic, Json, IOUtils
 Trace == ndJsonDeserialize(IOEnv.TRACE)
 Prop  == IOEnv.PROP
 
-VARIABLES l, st
-vars == <<l, st>>
+VARIABLES l, st, src
+vars == <<l, st, src>>
 
 \* C03: Get / IndexOf / Contains / Size of an observation agree with its Values()
 ObsAgrees(o, zero) ==
@@ -57,13 +57,14 @@ Obl(p, pre, e) ==
     [] p = "C17" -> SilentOK(e)
     [] p = "C18" -> C18(pre, e)
 
-Init == l = 1 /\ st = 0
+Init == l = 1 /\ st = 0 /\ src = 0
 Step ==
   /\ l <= Len(Trace)
   /\ LET e   == Trace[l]
-         pre == IF e.rs THEN e.pre ELSE st
+         pre == IF e.rs = 1 THEN e.pre ELSE IF e.rs = 2 THEN src ELSE st
      IN /\ IF Obl(Prop, pre, e) = TRUE THEN TRUE ELSE PrintT("REJECT|" \o ToString(l))
         /\ st' = IF e.obsbad THEN pre ELSE e.post
+        /\ src' = IF e.rs = 1 THEN e.pre ELSE src
   /\ l' = l + 1
 Spec == Init /\ [][Step]_vars
 \* the whole trace was consumed (one state per line plus the initial state)
